@@ -94,6 +94,7 @@ package vm
 //@   ensures exit-once-with-results [C08]: saved && exits == 1 && exGas == leftOverGas && sameslice(exRet, ret) && exErr == err
 //@   ensures cursor-restored [C03 C07 C10]: tree.current == old(tree.current)
 //@   ensures depth-kept: evm.depth == old(evm.depth)
+//@   ensures jp-switch-kept [C05]: evm.IsExecuteJP == old(evm.IsExecuteJP)
 //@   ensures readonly-kept: evm.interpreter.readOnly == old(evm.interpreter.readOnly)
 //@   ensures rules-kept: evm.chainRules == old(evm.chainRules)
 //@   ensures env-kept: evm.StateDB == old(evm.StateDB) && evm.Context.BlockNumber == old(evm.Context.BlockNumber)
@@ -196,6 +197,7 @@ package vm
 //@   ensures exit-once-with-results [C08]: saved && exits == 1 && exGas == leftoverGas && sameslice(exRet, ret) && exErr == err
 //@   ensures cursor-restored [C03 C07 C10]: tree.current == old(tree.current)
 //@   ensures depth-kept: evm.depth == old(evm.depth)
+//@   ensures jp-switch-kept [C05]: evm.IsExecuteJP == old(evm.IsExecuteJP)
 //@   ensures readonly-kept: evm.interpreter.readOnly == old(evm.interpreter.readOnly)
 //@   ensures rules-kept: evm.chainRules == old(evm.chainRules)
 //@   ensures env-kept: evm.StateDB == old(evm.StateDB) && evm.Context.BlockNumber == old(evm.Context.BlockNumber)
